@@ -88,7 +88,128 @@ def answer (all : Bool) (src dst : Nat) (ups cores downs : List Seg) : String :=
     (if errs = 0 then "" else s!" path-errors {errs}") ++ dmgNote ++
     " | " ++ joinWith " | " lines
 
+/-! property-specific ops: the op carries what the implementation returned (after `R`).
+
+`c28`: the model answers, for every returned path, its own version of that path (looked up among
+the paths of all joins passing no AS more than twice) — equal lines mean every returned path is a
+model path with the same metadata; a missing combination does not disturb this op.
+`c29`: the model answers the interface sequences of the specification that the implementation did
+not return — the expected line is `missing`; wrong metadata does not disturb this op. -/
+
+def takeGroups (size : Nat) : Nat → List String → Option (List (List String) × List String)
+  | 0, ws => some ([], ws)
+  | n + 1, ws =>
+    if ws.length < size then none
+    else match takeGroups size n (ws.drop size) with
+      | some (gs, rest) => some (ws.take size :: gs, rest)
+      | none => none
+
+def hWord (p : Path) : String :=
+  "H" ++ joinWith "," (p.hopFields.map fun h => s!"{h.inIf}:{h.egIf}:{h.exp}:{h.mac}")
+def fWord (p : Path) : String := "F" ++ renderIfs p.intfs
+
+def cands (src dst : Nat) (ups cores downs : List Seg) : List Path :=
+  filterLongPaths (sortByWeight (pathsOf (allJoins ups cores downs src dst)))
+
+def natLe (a b : Nat) : Bool := decide (a ≤ b)
+
+/-- cross-check on every op: the graph model must return the same paths as the enumeration -/
+def dmgNote (src dst : Nat) (ups cores downs : List Seg) (cs : List Path) : String :=
+  match combineDMG ups cores downs src dst true with
+  | none => " dmg-panic"
+  | some qs =>
+    if (qs.map renderFull).mergeSort strLe = (cs.map renderFull).mergeSort strLe then ""
+    else " dmg-mismatch"
+
+def weightOf (g : List String) : Nat :=
+  match g with
+  | w :: _ => ((w.drop 1).toString.toNat?).getD 0
+  | [] => 0
+
+def answer28 (all : Bool) (src dst : Nat) (ups cores downs : List Seg)
+    (given : List (List String)) : String :=
+  let cs := cands src dst ups cores downs
+  let ws := (given.map weightOf).mergeSort natLe
+  let one (g : List String) : String :=
+    if all then
+      let line := joinWith " " g
+      match cs.find? fun p => renderFull p == line with
+      | some p => renderFull p
+      | none =>
+        match g with
+        | [_, _, _, h, f, _, _] =>
+          match cs.find? fun p => hWord p == h && fWord p == f with
+          | some p => renderFull p
+          | none => "no-such-path"
+        | _ => "bad-path"
+    else
+      match g with
+      | [_, f, _] =>
+        match cs.filter fun p => fWord p == f with
+        | [] => "no-such-path"
+        | p :: ps => s!"W{p.weight} {f} X{(p :: ps).foldl (fun m q => max m q.expiry) 0}"
+      | _ => "bad-path"
+  let rec dups (seen : List String) : List (List String) → List String
+    | [] => []
+    | g :: gs =>
+      let key := if all then "" else joinWith " " (g.drop 1 |>.take 1)
+      (if !all && seen.contains key then "dup " ++ one g else one g) :: dups (key :: seen) gs
+  "w " ++ joinWith "," (ws.map toString) ++ dmgNote src dst ups cores downs cs ++ " | " ++
+    joinWith " | " (dups [] given)
+
+def removeOne (x : String) : List String → Option (List String)
+  | [] => none
+  | y :: ys => if x == y then some ys else (removeOne x ys).map (y :: ·)
+
+def answer29 (all : Bool) (src dst : Nat) (ups cores downs : List Seg) (given : List String) :
+    String :=
+  let cs := cands src dst ups cores downs
+  let spec := (cs.map fWord).mergeSort strLe
+  let spec := if all then spec else spec.eraseDups
+  let (missing, _) := spec.foldl (fun (acc : List String × List String) s =>
+    if all then
+      match removeOne s acc.2 with
+      | some rest => (acc.1, rest)
+      | none => (acc.1 ++ [s], acc.2)
+    else if acc.2.contains s then acc else (acc.1 ++ [s], acc.2)) ([], given)
+  joinWith " " ("missing" :: missing) ++ dmgNote src dst ups cores downs cs
+
+def parseCase (ws : List String) :
+    Option (Nat × Nat × List Seg × List Seg × List Seg × List String) :=
+  match ws with
+  | src :: dst :: nu :: nc :: nd :: ws =>
+    match src.toNat?, dst.toNat?, nu.toNat?, nc.toNat?, nd.toNat? with
+    | some src, some dst, some nu, some nc, some nd =>
+      match pSegs nu ws with
+      | some (ups, ws1) =>
+        match pSegs nc ws1 with
+        | some (cores, ws2) =>
+          match pSegs nd ws2 with
+          | some (downs, rest) => some (src, dst, ups, cores, downs, rest)
+          | none => none
+        | none => none
+      | none => none
+    | _, _, _, _, _ => none
+  | _ => none
+
+def handleProp (prop mode : String) (ws : List String) : String :=
+  if mode ≠ "all" ∧ mode ≠ "uniq" then "bad-op" else
+  match parseCase ws with
+  | some (src, dst, ups, cores, downs, "R" :: k :: rest) =>
+    match k.toNat? with
+    | none => "bad-op"
+    | some k =>
+      if prop = "c28" then
+        match takeGroups (if mode = "all" then 7 else 3) k rest with
+        | some (gs, []) => answer28 (mode = "all") src dst ups cores downs gs
+        | _ => "bad-op"
+      else
+        if rest.length = k then answer29 (mode = "all") src dst ups cores downs rest else "bad-op"
+  | _ => "bad-op"
+
 def handle : List String → String
+  | "c28" :: mode :: ws => handleProp "c28" mode ws
+  | "c29" :: mode :: ws => handleProp "c29" mode ws
   | "comb" :: mode :: src :: dst :: nu :: nc :: nd :: ws =>
     match src.toNat?, dst.toNat?, nu.toNat?, nc.toNat?, nd.toNat? with
     | some src, some dst, some nu, some nc, some nd =>
